@@ -26,6 +26,29 @@ J event_to_json(const Event& e) {
             o.set("alloc_fail_from_end", e.alloc_fail_from_end);
         if (e.trace)
             o.set("trace", e.trace);
+        if (e.encode)
+            o.set("encode", e.encode);
+        break;
+    case OP_OFFSETS:
+        o.set("pol", e.pol);
+        o.set("per_method", e.per_method);
+        if (e.stale)
+            o.set("stale", e.stale);
+        if (e.meth >= 0) {
+            o.set("meth", e.meth);
+            o.set("ppos", e.ppos);
+            o.set("pdelta", J(e.pdelta));
+        }
+        break;
+    case OP_RESTART:
+        o.set("pol", e.pol);
+        break;
+    case OP_DECODE:
+        o.set("pol", e.pol);
+        if (e.hash_seed)
+            o.set("hash_seed", J((unsigned long long)e.hash_seed));
+        if (e.hash_budget)
+            o.set("hash_budget", J((unsigned long long)e.hash_budget));
         break;
     case OP_CHECK:
         o.set("pol", e.pol);
@@ -206,6 +229,11 @@ Event event_from_json(const J& o) {
     e.alias = (int)o.geti("alias", 0);
     e.route = (int)o.geti("route", 0);
     e.shared = (int)o.geti("shared", 0);
+    e.encode = (int)o.geti("encode", 0);
+    e.per_method = (int)o.geti("per_method", 0);
+    e.stale = (int)o.geti("stale", 0);
+    e.ppos = (int)o.geti("ppos", 0);
+    e.pdelta = o.geti("pdelta", 0);
     return e;
 }
 
